@@ -39,6 +39,19 @@ Theorem C09_verify_sites_match_source :
 Proof. vm_compute. repeat split; reflexivity. Qed.
 Print Assumptions C09_verify_sites_match_source.
 
+
+(* every place where a read, list or copy path obtains a metadata document for use — including the
+   refresh after a stale pointer, judged per loop iteration — hands it to the authenticating callback
+   before anything else touches it (a refreshed document whose value is dropped is only ever seen
+   again through the verifying loop head) *)
+Theorem C09_every_acquisition_authenticated :
+  forallb (fun x => snd x) Gen_Crypto.acquisition_sites = true /\
+  length Gen_Crypto.acquisition_sites = 8%nat /\
+  map (fun x => fst (fst (fst (fst x)))) Gen_Crypto.acquisition_sites =
+    ["get_opts"; "get_opts"; "get_ranges"; "get_ranges"; "verified_metadata"; "copy_payload"; "copy_payload"; "listing_entry"]%string.
+Proof. vm_compute. repeat split; reflexivity. Qed.
+Print Assumptions C09_every_acquisition_authenticated.
+
 (* nonce derivation and chunk AAD parameters of the source are the ones modelled *)
 Theorem C09_nonce_and_chunk_aad_match_source :
   Gen_Crypto.nonce_ctr_range = (4, 12) /\ Gen_Crypto.nonce_ctr_le = true /\
@@ -187,21 +200,53 @@ Proof.
 Qed.
 Print Assumptions C09_compat_legacy_listing_refuted.
 
-(* get_ranges: modelled and compared with the implementation case by case (Run.check_case); the
-   universally quantified statement is not proved in this round:
-     forall ..., get_ranges open strict cs loc m fetch rs = Some outs ->
-       (exists h, In h H /\ h_loc h = loc /\ outs = map (fun '(s,e) => takeN (e-s) (dropN s (h_pt h))) rs)
-       \/ (strict = false /\ legacy m /\ rs = [])
-   What is proved: it rejects before any fetch unless the document verifies. *)
-Theorem C09_get_ranges_integrity_partial :
-  forall open strict store_cs loc m fetch rs,
-    rs <> [] -> verify_metadata open strict loc m = VErr ->
-    get_ranges open strict store_cs loc m fetch rs = None.
-Proof.
-  intros open strict store_cs loc m fetch rs Hn V. unfold get_ranges.
-  destruct rs; [congruence|]. now rewrite V.
-Qed.
-Print Assumptions C09_get_ranges_integrity_partial.
+(* get_ranges (cached span reuse included): Ok only with exactly the requested slices of a plaintext
+   honestly committed under that path; a legacy document can satisfy no range at all *)
+Theorem C09_get_ranges_integrity :
+  forall (open : bytes -> bytes -> bytes -> bytes -> option bytes) (H : list hcommit),
+    (forall h, In h H -> honest_wf h) ->
+    (forall n a c t p, open n a c t = Some p -> honest_seal H n a p c t) ->
+    (forall n a p c t a' p' c' t', honest_seal H n a p c t -> honest_seal H n a' p' c' t' -> p = p') ->
+    forall strict store_cs loc m fetch rs outs,
+      wf_meta m -> lenN loc < two64 -> 0 < store_cs ->
+      get_ranges open strict store_cs loc m fetch rs = Some outs ->
+      rs = [] \/
+      exists h, In h H /\ h_loc h = loc /\
+        Forall (fun r => fst r < snd r /\ snd r <= lenN (h_pt h)) rs /\
+        outs = map (fun r => takeN (snd r - fst r) (dropN (fst r) (h_pt h))) rs.
+Proof. exact get_ranges_integrity. Qed.
+Print Assumptions C09_get_ranges_integrity.
+
+(* copy / rename as read paths of the source, for a handle whose metadata cache holds an arbitrary
+   document and a backend that holds an arbitrary document: the document that is resealed for the
+   target passed verify_metadata in the iteration that used it, hence is an honest document of the
+   source path (or, compat mode, an unauthenticated legacy one) ... *)
+Theorem C09_copy_source_integrity :
+  forall (open : bytes -> bytes -> bytes -> bytes -> option bytes) (H : list hcommit),
+    (forall h, In h H -> honest_wf h) ->
+    (forall n a c t p, open n a c t = Some p -> honest_seal H n a p c t) ->
+    forall strict loc cached backend has_payload m,
+      (forall m', cached = DDoc m' -> wf_meta m') -> (forall m', backend = DDoc m' -> wf_meta m') ->
+      lenN loc < two64 ->
+      copy_source open strict loc cached backend has_payload = Some m ->
+      has_payload m = true /\
+      ((exists h, In h H /\ auth_view loc m = auth_view (h_loc h) (h_meta h))
+       \/ (strict = false /\ m_an m = None /\ m_at m = None /\ m_av m = None /\ m_gen m = None)).
+Proof. exact copy_source_integrity. Qed.
+Print Assumptions C09_copy_source_integrity.
+
+(* ... and the target document built from it is an honest commit of the same plaintext that adds no
+   chunk seal (same nonce, tags, chunk size), so all read theorems apply to the target *)
+Theorem C09_copy_commit_honest :
+  forall seal loc m h to an gen etag ms,
+    honest_wf h -> auth_view loc m = auth_view (h_loc h) (h_meta h) ->
+    lenN to < two64 -> lenN etag < two64 -> lenN gen < two64 -> ms < two64 ->
+    let m' := copy_meta seal m to an gen etag ms CHUNK_AAD_BOUND in
+    honest_wf (mkCommit to m' (h_pt h) (h_cts h)) /\
+    m_nonce m' = m_nonce (h_meta h) /\ m_tags m' = m_tags (h_meta h) /\ m_cs m' = m_cs (h_meta h) /\
+    m_size m' = lenN (h_pt h) /\ m_gen m' = Some gen /\ m_an m' = Some an.
+Proof. exact copy_commit_honest. Qed.
+Print Assumptions C09_copy_commit_honest.
 
 (* ---------------------------------------------------------------- (4) no plaintext at rest *)
 (* what put_opts hands to the backend is the concatenation of the ciphertext chunks and a document
@@ -251,3 +296,18 @@ Example C09_read_integrity_nonvacuous :
   get_opts opn false 4 [x6b] (mkMeta 10 (m_etag m) None None nv_base (m_tags m) (Some 4) (Some 1) None None (m_gen m) (m_ms m))
            (inmem_fetch (Some ct)) None false = GErr.
 Proof. vm_compute. repeat split; reflexivity. Qed.
+
+(* non-vacuity: a stale cached document whose payload is gone and a tampered backend document (size
+   8 instead of 10): the copy is refused; with the honest backend document it goes through *)
+Example C09_copy_nonvacuous :
+  let m := snd nv_obj in
+  let opn := open_log nv_log in
+  let stale := mkMeta 10 (m_etag m) None None nv_base (m_tags m) (Some 4) (Some 1) (m_an m) (m_at m) (Some [x66]) (m_ms m) in
+  let forged := mkMeta 8 (m_etag m) None None nv_base (m_tags m) (Some 4) (Some 1) (m_an m) (m_at m) (m_gen m) (m_ms m) in
+  let has (x : meta) := match m_gen x with Some [x67] => true | _ => false end in
+  copy_source opn true [x6b] (DDoc m) (DDoc forged) has = Some m /\
+  copy_source opn true [x6b] DAbsent (DDoc forged) has = None /\
+  copy_source opn true [x6b] DAbsent (DDoc m) has = Some m /\
+  copy_source opn true [x6b] (DDoc stale) (DDoc m) has = None.
+Proof. vm_compute. repeat split; reflexivity. Qed.
+
